@@ -97,7 +97,13 @@ def generators(ctx, RA, RG, P) -> None:
             if len(wcall.args) > 1 and not (isinstance(wcall.args[1], ast.Constant) and wcall.args[1].value is True):
                 td = False
         ctx.check(td, RG, f"{gname} walk is top-down", "os.walk(topdown=False): children would be reported before their parents", loc)
-        walked = ast.unparse(wcall.args[0]) if isinstance(wcall, ast.Call) and wcall.args else "?"
+        # the walked directory as a term of the generator's own parameters (the walk may sit in a helper generator whose
+        # parameter was bound to it: the loop's substituted text says what is walked)
+        try:
+            _wt = ast.parse(W.text, mode="eval").body
+            walked = ast.unparse(_wt.args[0]) if isinstance(_wt, ast.Call) and _wt.args else "?"
+        except SyntaxError:
+            walked = ast.unparse(wcall.args[0]) if isinstance(wcall, ast.Call) and wcall.args else "?"
         want_walk = params[1] if fam == "Moved" and len(params) > 1 else params[0]
         ctx.check(walked == want_walk, RG, f"{gname} walks the existing directory", f"walks `{walked}`, expected `{want_walk}` (the directory as it exists now)", loc)
         kinds_seen = set()
